@@ -157,6 +157,11 @@ fn g_kdf_gen() -> Vec<Vec<u8>> {
     let (key, ctx) = k.into_parts();
     vec![key.as_slice().to_vec(), ctx.as_slice().to_vec()]
 }
+fn g_kdf_gen_vec() -> Vec<Vec<u8>> {
+    let k: Kdf<Vec<u8>, Vec<u8>> = Kdf::gen();
+    let (key, ctx) = k.into_parts();
+    vec![key, ctx]
+}
 fn g_kdf_gen_with_defaults() -> Vec<Vec<u8>> {
     let (key, ctx) = Kdf::gen_with_defaults().into_parts();
     vec![key.as_slice().to_vec(), ctx.as_slice().to_vec()]
@@ -285,6 +290,7 @@ fn entry_points() -> Vec<(&'static str, Gen)> {
         ("SigningKeyPair::gen_with_defaults", g_signing_keypair_gen_with_defaults),
         ("Kdf::gen", g_kdf_gen),
         ("Kdf::gen_with_defaults", g_kdf_gen_with_defaults),
+        ("Kdf<Vec,Vec>::gen", g_kdf_gen_vec),
         ("crypto_box_seal(ephemeral pk, ciphertext)", g_box_seal),
         ("DryocBox::seal(ephemeral pk)", g_dryocbox_seal),
         ("crypto_secretstream_xchacha20poly1305_init_push(header)", g_init_push),
@@ -350,6 +356,20 @@ pub fn run(cx: &mut Ctx) {
             let len = vals[0].len();
             let comp = format!("{}#{}", name, c);
             cx.key(&comp);
+            // (0) a value was actually returned: non-empty, the same length on every call, and the length the name of
+            //     the entry point announces (an empty value passes every test below vacuously)
+            cx.eval();
+            let announced: Option<usize> = ["gen<", "Array<", "[u8;"].iter().find_map(|pat| {
+                name.find(pat).and_then(|at| {
+                    let digits: String = name[at + pat.len()..].chars().take_while(|ch| ch.is_ascii_digit()).collect();
+                    digits.parse().ok()
+                })
+            });
+            if len == 0 || vals.iter().any(|v| v.len() != len) || (c == 0 && announced.is_some() && announced != Some(len)) {
+                cx.violation(&format!("C11|{}|{}", name, if len == 0 { "empty_value" } else { "unexpected_length" }),
+                    json!({"component":c,"calls":n,"lengths":vals.iter().take(4).map(|v| v.len()).collect::<Vec<_>>(),"announced":announced}));
+                continue;
+            }
             // (1) no byte position is constant across the N calls
             cx.eval();
             let constant: Vec<usize> = (0..len).filter(|&i| vals.iter().all(|v| v.len() == len && v[i] == vals[0][i])).collect();
@@ -404,4 +424,96 @@ pub fn run(cx: &mut Ctx) {
         cx.evaln(n as u64);
     }
     cx.note("calls_per_entry_point", json!(n));
+    if !only_nightly {
+        across_fork(cx, &eps);
+    }
+}
+
+/// freshness across fork(2): the library is used once (so that any user-space pool or cached state exists), the process
+/// forks, and parent and child both draw; a value seen on both sides means the randomness was not drawn per call
+fn across_fork(cx: &mut Ctx, eps: &[(&'static str, Gen)]) {
+    let rounds = cx.tier.pick(1usize, 2, 8);
+    for (ei, (name, f)) in eps.iter().enumerate() {
+        if !cx.mine(1000 + ei as u64) {
+            continue;
+        }
+        if name.contains("pwhash") || name.contains("PwHash") || name.contains("257..600") {
+            continue; // costly per call; their salt comes from the same source as the cheaper entry points
+        }
+        for round in 0..rounds {
+            let primed = guard(name, || f());
+            if primed.is_err() {
+                break;
+            }
+            let mut fds = [0i32; 2];
+            if unsafe { libc::pipe(fds.as_mut_ptr()) } != 0 {
+                cx.violation("HARNESS|C11|pipe_failed", json!({}));
+                return;
+            }
+            let pid = unsafe { libc::fork() };
+            if pid < 0 {
+                cx.violation("HARNESS|C11|fork_failed", json!({}));
+                return;
+            }
+            if pid == 0 {
+                // child: draw, write length-prefixed values, leave without running destructors or flushing logs
+                let mut buf: Vec<u8> = Vec::new();
+                for _ in 0..3 {
+                    for v in f() {
+                        buf.extend_from_slice(&(v.len() as u32).to_le_bytes());
+                        buf.extend_from_slice(&v);
+                    }
+                }
+                let mut off = 0usize;
+                while off < buf.len() {
+                    let w = unsafe { libc::write(fds[1], buf[off..].as_ptr() as *const libc::c_void, buf.len() - off) };
+                    if w <= 0 {
+                        break;
+                    }
+                    off += w as usize;
+                }
+                unsafe { libc::_exit(0) };
+            }
+            unsafe { libc::close(fds[1]) };
+            let mut mine: Vec<Vec<u8>> = Vec::new();
+            for _ in 0..3 {
+                if let Ok(vs) = guard(name, || f()) {
+                    mine.extend(vs);
+                }
+            }
+            let mut raw: Vec<u8> = Vec::new();
+            let mut chunk = [0u8; 65536];
+            loop {
+                let r = unsafe { libc::read(fds[0], chunk.as_mut_ptr() as *mut libc::c_void, chunk.len()) };
+                if r <= 0 {
+                    break;
+                }
+                raw.extend_from_slice(&chunk[..r as usize]);
+            }
+            unsafe { libc::close(fds[0]) };
+            let mut status = 0i32;
+            unsafe { libc::waitpid(pid, &mut status, 0) };
+            let mut theirs: Vec<Vec<u8>> = Vec::new();
+            let mut off = 0usize;
+            while off + 4 <= raw.len() {
+                let l = u32::from_le_bytes(raw[off..off + 4].try_into().unwrap()) as usize;
+                off += 4;
+                if off + l > raw.len() {
+                    break;
+                }
+                theirs.push(raw[off..off + l].to_vec());
+                off += l;
+            }
+            if theirs.is_empty() || !libc::WIFEXITED(status) {
+                cx.violation("HARNESS|C11|forked_child_returned_nothing", json!({"entry_point":name,"status":status}));
+                continue;
+            }
+            cx.eval();
+            let seen: HashSet<&Vec<u8>> = theirs.iter().filter(|v| v.len() >= 16).collect();
+            if let Some(dup) = mine.iter().find(|v| v.len() >= 16 && seen.contains(v)) {
+                cx.violation(&format!("C11|{}|same_value_in_parent_and_child_after_fork", name), json!({"round":round,"value":hx(&dup[..dup.len().min(32)]),"parent_values":mine.len(),"child_values":theirs.len()}));
+            }
+            cx.cover("across_fork", name);
+        }
+    }
 }
